@@ -11,7 +11,8 @@
 //! structure, since this structure is immutable.
 //!
 
-use crate::dag::{Dag, DagLike, NoSharing};
+use super::MAX_DISPLAY_LENGTH;
+use crate::dag::{Dag, DagLike};
 use crate::Tmr;
 
 use std::sync::Arc;
@@ -79,59 +80,66 @@ impl fmt::Debug for Final {
 
 impl fmt::Display for Final {
     fn fmt(&self, f: &mut fmt::Formatter) -> fmt::Result {
-        let mut skipping: Option<Tmr> = None;
-        for data in self.verbose_pre_order_iter::<NoSharing>(None) {
-            if let Some(skip) = skipping {
-                if data.is_complete && data.node.tmr == skip {
-                    skipping = None;
+        // Types are DAGs with a lot of sharing (a word type `2^(2^n)` has `n + 1` distinct
+        // nodes but `2^(n+1) - 1` nodes as a tree), so we must not walk into anything that we
+        // print in abbreviated form, and we bound the number of nodes that we do walk.
+        enum Item<'a> {
+            Type(&'a Final, bool),
+            Str(&'static str),
+        }
+
+        let mut n_nodes = 0;
+        let mut stack = vec![Item::Type(self, true)];
+        while let Some(item) = stack.pop() {
+            let (ty, is_root) = match item {
+                Item::Str(s) => {
+                    f.write_str(s)?;
+                    continue;
                 }
-                continue;
-            } else {
-                if data.node.tmr == Tmr::TWO_TWO_N[0] {
-                    f.write_str("2")?;
-                    skipping = Some(data.node.tmr);
-                }
-                for (n, tmr) in Tmr::TWO_TWO_N.iter().enumerate().skip(1) {
-                    if data.node.tmr == *tmr {
-                        write!(f, "2^{}", 1 << n)?;
-                        skipping = Some(data.node.tmr);
-                    }
-                }
-            }
-            if skipping.is_some() {
-                continue;
+                Item::Type(ty, is_root) => (ty, is_root),
+            };
+
+            n_nodes += 1;
+            if n_nodes > MAX_DISPLAY_LENGTH {
+                write!(f, "... [truncated type after {} nodes]", MAX_DISPLAY_LENGTH)?;
+                return Ok(());
             }
 
-            match (&data.node.bound, data.n_children_yielded) {
-                (CompleteBound::Unit, _) => {
-                    f.write_str("1")?;
+            match ty.as_word() {
+                Some(0) => {
+                    f.write_str("2")?;
+                    continue;
                 }
+                Some(n) => {
+                    write!(f, "2^{}", 1u64 << n)?;
+                    continue;
+                }
+                None => {}
+            }
+
+            match &ty.bound {
+                CompleteBound::Unit => f.write_str("1")?,
                 // special-case 1 + A as A?
-                (CompleteBound::Sum(ref left, _), 0)
+                CompleteBound::Sum(ref left, ref right)
                     if matches!(left.bound, CompleteBound::Unit) =>
                 {
-                    skipping = Some(Tmr::unit());
-                }
-                (CompleteBound::Sum(ref left, _), 1)
-                    if matches!(left.bound, CompleteBound::Unit) => {}
-                (CompleteBound::Sum(ref left, _), 2)
-                    if matches!(left.bound, CompleteBound::Unit) =>
-                {
-                    f.write_str("?")?;
+                    stack.push(Item::Str("?"));
+                    stack.push(Item::Type(right, false));
                 }
                 // other sums and products
-                (CompleteBound::Sum(..), 0) | (CompleteBound::Product(..), 0) => {
-                    if data.index > 0 {
+                CompleteBound::Sum(ref left, ref right)
+                | CompleteBound::Product(ref left, ref right) => {
+                    if !is_root {
                         f.write_str("(")?;
+                        stack.push(Item::Str(")"));
                     }
+                    stack.push(Item::Type(right, false));
+                    stack.push(Item::Str(match ty.bound {
+                        CompleteBound::Sum(..) => " + ",
+                        _ => " × ",
+                    }));
+                    stack.push(Item::Type(left, false));
                 }
-                (CompleteBound::Sum(..), 2) | (CompleteBound::Product(..), 2) => {
-                    if data.index > 0 {
-                        f.write_str(")")?;
-                    }
-                }
-                (CompleteBound::Sum(..), _) => f.write_str(" + ")?,
-                (CompleteBound::Product(..), _) => f.write_str(" × ")?,
             }
         }
         Ok(())
